@@ -34,9 +34,15 @@ func flipBits(t *rapid.T, b []byte, label string) []byte {
 	if len(out) == 0 {
 		return out
 	}
-	// distinct positions: flipping a bit twice would be the identity mutation
-	pos := rapid.SliceOfNDistinct(rapid.IntRange(0, len(out)*8-1), 1, min(3, len(out)*8), rapid.ID[int]).Draw(t, label+".bits")
-	for _, p := range pos {
+	// distinct positions (flipping a bit twice would be the identity mutation), uniform over the input
+	k := rapid.IntRange(1, min(3, len(out)*8)).Draw(t, label+".nbits")
+	seen := map[int]bool{}
+	for i := 0; i < k; i++ {
+		p := uniformInt(t, 0, len(out)*8-1, label+".bit")
+		if seen[p] {
+			continue
+		}
+		seen[p] = true
 		out[p/8] ^= 1 << uint(p%8)
 	}
 	return out
